@@ -17,23 +17,30 @@ import impl
 import lib
 from lib import coq_list, coq_Z
 
-COQ_TARGETS = ["theories/Props/C04.vo", "theories/Model/ScalarsEq.vo"]
+COQ_TARGETS = ["theories/Props/C04.vo", "theories/Model/ScalarsEq.vo", "theories/Model/IsoTextEq.vo"]
 THEOREMS = ["C04_dur_wellformed", "C04_dur_reader", "C04_refuted_zero_malformed", "C04_not_full",
             "C04_refuted_weeks", "C04_refuted_negative", "C04_iso_cache_transparent", "C04_dur_roundtrip",
             "C04_text_int", "C04_text_float", "C04_text_decimal", "C04_text_fraction", "C04_text_uuid",
             "C04_text_path", "C04_text_enum", "C04_text_date", "C04_text_datetime", "C04_text_time",
-            "C04_num_to_temporal", "C04_temporal_to_num", "C04_temporal_to_text"]
+            "C04_num_to_temporal", "C04_temporal_to_num", "C04_temporal_to_text",
+            "C04_date_reader", "C04_time_reader", "C04_datetime_reader",
+            "C04_date_law_from_reader", "C04_datetime_law_from_reader", "C04_time_law_from_reader"]
+# non-vacuity: a concrete runtime satisfies RuntimeLaws, and text theorems instantiated on it (Examples of Props/C04.v)
+EXAMPLES = ["C04_runtime_laws_satisfiable", "C04_text_int_on_toy", "C04_dur_roundtrip_on_toy", "C04_text_date_on_toy",
+            "C04_text_enum_on_toy"]
 UTC = D.timezone.utc
 EPOCH = D.datetime(1970, 1, 1, tzinfo=UTC)
 TD = D.timedelta
 HDR = ("From Coq Require Import List ZArith NArith Ascii String. Import ListNotations.\n"
        "Require Import TL.Model.Duration TL.Model.Temporal TL.Model.Scalars TL.Model.ScalarsEq.\n"
+       "Require Import TL.Model.IsoText TL.Model.IsoTextEq.\n"
        "Open Scope Z_scope.\n"
        "Definition sb (l : list N) : string := string_of_list_ascii (map ascii_of_N l).\n")
 
 
 _ORDER = ["Model/Duration", "Model/Temporal", "Model/Scalars", "Model/ScalarsEq", "Proofs/DurationLemmas",
-          "Proofs/ScalarsLemmas", "Props/C04"]     # a linear extension of the Require order of C04's files
+          "Proofs/ScalarsLemmas", "Model/IsoText", "Model/IsoTextEq", "Proofs/IsoTextLemmas", "Model/ScalarsToy",
+          "Proofs/ScalarsToyLemmas", "Props/C04"]     # a linear extension of the Require order of C04's files
 
 
 def _prebuild():
@@ -118,6 +125,10 @@ def _patch_findings(run):
 def prove(run: lib.Run):
     _patch_findings(run)
     run.check_props("Props/C04.v", THEOREMS)
+    src = open(os.path.join(lib.THEORIES, "Props", "C04.v")).read()
+    missing = [e for e in EXAMPLES if not re.search(r"Example\s+%s\b" % e, src) or f"Print Assumptions {e}." not in src]
+    run.oblige("props:non-vacuity Examples (RuntimeLaws toy_rt and instances) stated and under Print Assumptions",
+               not missing, "missing: " + ", ".join(missing))
     run.assumptions += [
         "C04: interpreter/third-party behaviour (int/float/Decimal/Fraction/UUID/Path/Enum constructors, str(), "
         "date/time/datetime.isoformat(), pendulum.parse, time.fromisoformat, datetime.fromtimestamp, timestamp(), "
@@ -666,6 +677,115 @@ def corr_routines(run):
     return [cases[i] for i in bad]
 
 
+def emit_iso(v) -> str:
+    if v is None:
+        return "INone"
+    if isinstance(v, D.datetime):
+        return f"(IDateTime {emit_dtf(v)})"
+    if isinstance(v, D.date):
+        return f"(IDate {v.year} {v.month} {v.day})"
+    return f"(ITime {emit_tmf(v)})"
+
+
+ISO_KINDS = {"date": (D.date, gen_date, "(IDate 0 0 0)"),
+             "time": (D.time, gen_time, "(ITime {| th := 0; tmi := 0; ts := 0; tus := 0; toff := None; tfold := 0 |})"),
+             "datetime": (D.datetime, gen_datetime, "(IDateTime {| dy := 0; dmo := 0; dd := 0; dh := 0; dmi := 0; ds := 0; "
+                                                    "dus := 0; doff := None; dfold := 0 |})")}
+
+
+def corr_iso_writer(run):
+    """interpreter law, proved useful by C04_*_reader: v.isoformat() is what Model/IsoText.v writes, and the
+    independent reader reads that text back as v"""
+    n = run.budget(1500, 12000)
+    rng = random.Random(run.seed + 16)
+    vals = [D.date.min, D.date.max, D.date(2024, 2, 29), D.time(0, 0, tzinfo=UTC), D.time(23, 59, 59, 999999, tzinfo=D.timezone(TD(minutes=-1439))),
+            D.datetime(2, 1, 1, tzinfo=D.timezone(TD(minutes=1439))), D.datetime(9998, 12, 31, 23, 59, 59, 1, tzinfo=UTC, fold=1)]
+    vals += [build_value(c["kind"], c["value"])[1] for c in corpus("iso-writer")]
+    while len(vals) < n:
+        k = len(vals) % 10
+        v = (gen_date, gen_time, gen_datetime)[k % 3](rng)
+        if k in (7, 8):
+            v = v.replace(tzinfo=None)       # naive times/datetimes: outside U, inside the writer model
+        vals.append(v)
+    cases, coq, dist = [], [], {"date": 0, "time": 0, "datetime": 0, "naive": 0, "micros": 0, "negative_offset": 0}
+    for v in vals:
+        text = v.isoformat()
+        kind = "datetime" if isinstance(v, D.datetime) else ("date" if isinstance(v, D.date) else "time")
+        cases.append({"layer": "iso-writer", "kind": kind, "value": repr(v), "observed": text})
+        coq.append(f"({emit_iso(v)}, {cs(text)})")
+        dist[kind] += 1
+        if kind != "date":
+            dist["naive"] += v.utcoffset() is None
+            dist["micros"] += v.microsecond != 0
+            dist["negative_offset"] += v.utcoffset() is not None and v.utcoffset() < TD(0)
+    bad, extra = eval_shards(run, "isowriter", "isowriter_case_ok", coq, [("readback", "isoread_emitted_ok")])
+    run.laws["isoformat() of date/time/datetime == Model.IsoText writers"] = len(cases) - len(bad)
+    run.record_corr("iso-writer(date/time/datetime.isoformat() characters vs Model/IsoText.v)", len(cases),
+                    [cases[i] for i in bad], len({c["observed"] for c in cases}), dist)
+    run.record_corr("iso-readback(independent reader on the interpreter's text)", len(cases),
+                    [cases[i] for i in extra["readback"]], len(cases), {})
+
+
+def mutate_iso(rng, s: str) -> str:
+    for _ in range(rng.randint(1, 2)):
+        k = rng.randint(0, 5)
+        i = rng.randint(0, max(0, len(s) - 1))
+        if k == 0 and s:
+            s = s[:i] + s[i + 1:]
+        elif k == 1:
+            s = s[:i] + rng.choice("0123456789:-+T. Z") + s[i:]
+        elif k == 2 and s:
+            s = s[:i] + rng.choice("0123456789:-+T.") + s[i + 1:]
+        elif k == 3:
+            s = s + rng.choice(["Z", "0", ":00", "+00:00", " "])
+        elif k == 4:
+            s = s.replace(":", "", 1)
+        else:
+            s = s.replace("-", rng.choice(["", "/", "+"]), 1)
+    return s
+
+
+def corr_iso_reader(run):
+    """wherever the independent reader assigns a value of U to a text (emitted language + mutations), typelib's own
+    reading serdes.dateparse(s, T) is that value"""
+    from typelib import serdes
+    n = run.budget(1500, 12000)
+    rng = random.Random(run.seed + 17)
+    items = [("date", "2024-02-29"), ("date", "2023-02-29"), ("time", "03:04:05+05:30"), ("time", "03:04:05.5-00:01"),
+             ("time", "24:00:00+00:00"), ("datetime", "2020-01-01T17:00:00+05:00"), ("datetime", "2020-01-01T17:00:00.000001-23:59"),
+             ("datetime", "2020-01-01"), ("date", "2020-01-01T00:00:00+00:00"), ("time", "03:04:05+24:00"), ("datetime", "2020-02-30T00:00:00+00:00")]
+    items += [(c["kind"], c["text"]) for c in corpus("iso-reader")]
+    while len(items) < n:
+        kind = rng.choice(list(ISO_KINDS))
+        base = ISO_KINDS[kind][1](rng).isoformat()
+        items.append((kind, base if rng.random() < 0.35 else mutate_iso(rng, base)))
+    cases, coq, dist = [], [], {"typelib_reads": 0, "typelib_rejects": 0}
+    for kind, s in items:
+        if not all(32 <= ord(c) < 127 for c in s):
+            continue
+        T, _, kterm = ISO_KINDS[kind]
+        impl.clear_caches()
+        try:
+            r = serdes.dateparse(s, T)
+            if kind == "date" and isinstance(r, D.datetime):
+                r = r.date()
+            if isinstance(r, (D.datetime, D.time)) and r.utcoffset() is not None and (
+                    r.utcoffset().microseconds or r.utcoffset().seconds % 60):
+                r = None            # offsets with seconds are outside U
+            if not isinstance(r, T):
+                r = None
+        except Exception:
+            r = None
+        cases.append({"layer": "iso-reader", "kind": kind, "text": s, "typelib": repr(r)})
+        dist["typelib_reads" if r is not None else "typelib_rejects"] += 1
+        coq.append(f"({kterm}, {cs(s)}, {emit_iso(r)})")
+    bad, extra = eval_shards(run, "isoreader", "isoreader_case_ok", coq, [("accepts", "(fun c => negb (isoreader_accepts c))")])
+    dist["spec_reader_assigns_a_value_of_U"] = len(extra["accepts"])
+    run.record_corr("iso-reader(read_iso_date/time/datetime vs dateparse on emitted language + mutations)", len(cases),
+                    [cases[i] for i in bad], len(extra["accepts"]), dist)
+    return [cases[i] for i in bad]
+
+
 def sample_laws(run):
     """the stated laws of RuntimeLaws, sampled against the interpreter (not typelib)"""
     import pendulum
@@ -708,6 +828,8 @@ def correspond(run: lib.Run):
     run._c04_bad = {"writer": corr_writer(run), "reader": corr_reader(run)}
     corr_pendulum(run)
     run._c04_bad["routines"] = corr_routines(run)
+    corr_iso_writer(run)
+    run._c04_bad["iso-reader"] = corr_iso_reader(run)
     sample_laws(run)
 
 
